@@ -102,6 +102,7 @@ func run(args []string, stdout io.Writer) error {
 		if err != nil {
 			return fmt.Errorf("error getting NAL units: %w", err)
 		}
+		nalus = dropEmptyNalus(nalus) // e.g. from two start codes in a row
 		frames, err := findAnnexBFrames(nalus, o.codec)
 		if err != nil {
 			return fmt.Errorf("error finding frames: %w", err)
@@ -421,6 +422,10 @@ func printSEINALus(w io.Writer, seiNALUs [][]byte, codec string, seiLevel int, a
 			if seiLevel >= 2 {
 				fmt.Fprintf(w, "  SEI raw: %s\n", hex.EncodeToString(seiNALU))
 			}
+			if len(seiNALU) < hdrLen {
+				fmt.Fprintf(w, "  SEI: NAL unit of %d bytes is shorter than its header\n", len(seiNALU))
+				continue
+			}
 			seiBytes := seiNALU[hdrLen:]
 			buf := bytes.NewReader(seiBytes)
 			seiDatas, err := sei.ExtractSEIData(buf)
@@ -493,6 +498,17 @@ func findAnnexBFrames(nalus [][]byte, codec string) ([][][]byte, error) {
 		frames = append(frames, nalus[frameStart:])
 	}
 	return frames, nil
+}
+
+// dropEmptyNalus removes zero-length NAL units, which have no header byte to look at.
+func dropEmptyNalus(nalus [][]byte) [][]byte {
+	out := nalus[:0]
+	for _, nalu := range nalus {
+		if len(nalu) > 0 {
+			out = append(out, nalu)
+		}
+	}
+	return out
 }
 
 func isAvcAudNalu(nalu []byte) bool {
